@@ -14,7 +14,7 @@ import (
 //
 //	kind 0  stats.TDist{V: A}                       0.01 <= V <= 1e9
 //	kind 1  stats.UDist{N1: N, N2: K, T: T}
-//	kind 2  stats.KDE{Sample: Xs, Bandwidth: B}
+//	kind 2  stats.KDE{Sample: Xs, Bandwidth: B, Kernel: D (0 Epanechnikov, 1 Gaussian, 2 Delta)}
 //	kind 3  stats.BinomialDist{N, P}                N <= 1000
 //	kind 4  stats.HypergeometicDist{N, K, Draws: D} N <= 1000
 //	kind 5  stats.NormalDist{Mu: A, Sigma: B}       (own InvCDF and Rand methods)
@@ -135,7 +135,10 @@ func c07RelDist(c *c07Case) (stats.DistCommon, error) {
 				return nil, fmt.Errorf("bad kde sample")
 			}
 		}
-		return &stats.KDE{Sample: stats.Sample{Xs: xs}, Bandwidth: b}, nil
+		if c.D < 0 || c.D > 2 {
+			return nil, fmt.Errorf("bad kernel")
+		}
+		return &stats.KDE{Sample: stats.Sample{Xs: xs}, Bandwidth: b, Kernel: []stats.KDEKernel{stats.EpanechnikovKernel, stats.GaussianKernel, stats.DeltaKernel}[c.D]}, nil
 	case 3:
 		p := float64(c.P)
 		if c.N < 0 || c.N > 1000 || !(p >= 0 && p <= 1) {
@@ -253,7 +256,7 @@ func c07RelHeader(l *Line, c *c07Case) (*c07Rel, error) {
 	}); pan {
 		return nil, fmt.Errorf("InvCDF unusable: %s", msg)
 	}
-	l.I(c.Kind).I(r.own).F(bl).F(bh).F(cbl).F(cbh).F(cpl).F(cph)
+	l.I(c.Kind).F(float64(c.A)).I(r.own).F(bl).F(bh).F(cbl).F(cbh).F(cpl).F(cph)
 	return r, nil
 }
 
@@ -320,7 +323,7 @@ func c07CheckSrc(src []int64) error {
 	return nil
 }
 
-// op 7: 7 7 kind own bl bh cbl cbh cpl cph  nsrc {int63}*  st consumed y draw  {y ist x xm c0 cm xp cp rst ref}
+// op 7: 7 7 kind par own bl bh cbl cbh cpl cph  nsrc {int63}*  st consumed y draw  {y ist x xm c0 cm xp cp rst ref}
 func c07RunRandRel(l *Line, c *c07Case) error {
 	if err := c07CheckSrc(c.Src); err != nil {
 		return err
